@@ -9,5 +9,5 @@ def run(rep, kf, tier, seed):
     engine_b.discharge(rep, kf, [rb.source_table_contract(), rb.add_responses_contract(), crc.response_contract()], "C04", tier, seed)
     run_endpoints(rep, kf, tier, seed, "C04")
     from props.common import run_bounded
-    run_bounded(rep, kf, "C04", ["response_type"], tier)
+    run_bounded(rep, kf, "C04", ["response_type", "response_media", "response_refs"], tier)
     return {"level": "proof"}
